@@ -4,7 +4,7 @@ use serde::de::DeserializeOwned;
 use serde::Serialize;
 use serde_json::{json, Value};
 use std::fmt::Debug;
-use toodee::{TooDee, TooDeeOps};
+use toodee::{TooDee, TooDeeOps, TooDeeOpsMut as _};
 
 const TRANSPORTS: [&str; 4] = ["str", "slice", "reader", "value"];
 
@@ -19,6 +19,16 @@ pub fn cases(f: &mut dyn FnMut(Value) -> bool) {
         for (c, r) in shapes_serde() {
             for tr in TRANSPORTS {
                 if !f(json!({"elem": elem, "shape": [c, r], "transport": tr})) {
+                    return;
+                }
+            }
+        }
+    }
+    // large arrays and views (views are written dimensions first, owned arrays data first)
+    for (c, r) in [(65usize, 64usize), (1, 4999), (300, 33)] {
+        for kind in ["bigview", "bigview_mut", "big"] {
+            for tr in TRANSPORTS {
+                if !f(json!({"elem": kind, "shape": [c, r], "transport": tr})) {
                     return;
                 }
             }
@@ -122,6 +132,24 @@ pub fn run(case: &Value) -> Res {
     }
     let (c, r) = (ju(&case["shape"][0]), ju(&case["shape"][1]));
     let n = c * r;
+    if elem == "big" || elem == "bigview" || elem == "bigview_mut" {
+        // a window one cell smaller on each side of a (c+2) x (r+2) parent, or the owned array itself
+        let cells: Vec<u32> = (0..(c + 2) * (r + 2)).map(|i| i as u32).collect();
+        let mut p = TooDee::from_vec(c + 2, r + 2, cells);
+        let exp: Vec<u32> = (0..r).flat_map(|rr| (0..c).map(move |cc| ((rr + 1) * (c + 2) + cc + 1) as u32)).collect();
+        let got: Result<TooDee<u32>, String> = match elem {
+            "bigview" => transport::<_, u32>(&p.view((1, 1), (c + 1, r + 1)), tr),
+            "bigview_mut" => transport::<_, u32>(&p.view_mut((1, 1), (c + 1, r + 1)), tr),
+            _ => transport::<_, u32>(&TooDee::from_vec(c, r, exp.clone()), tr),
+        };
+        return match got {
+            Err(e) => Err(Fail::new(format!("{} {}x{} via {}", elem, c, r, tr), format!("Ok dims=({},{}), {} cells", c, r, n), format!("Err({})", &e[..e.len().min(200)]))),
+            Ok(back) => {
+                check_eq("dims", &(c, r), &(back.num_cols(), back.num_rows()))?;
+                check_eq("cells equal", &true, &(back.data() == &exp[..]))
+            }
+        };
+    }
     match elem {
         "u32" => {
             let mut cells = flat(&mk_grid(c, r));
